@@ -1,5 +1,5 @@
 import Canopy.Props.C04
-import Canopy.Proof.LedgerEndBlockLive
+import Canopy.Proof.LedgerDistinct
 /-!
 # C12 — staking bookkeeping stays consistent and the chain never wedges itself
 
@@ -41,8 +41,12 @@ says "not unstaking". For a parameter change the same is required of the paramet
 
 open Canopy.C04 (Op)
 
-/-- the invariant carried along a chain for C12 -/
-def Inv (L : Ledger) : Prop := InvSupply L ∧ PercentsOK L ∧ InvStaking L
+/-- the invariant carried along a chain for C12: the two clauses of C04, the staking bookkeeping, and
+`CommitteesDistinct` — no validator lists a committee twice (the loader rejects such a genesis since 0262f16,
+`checkCommittees` rejects such a stake / edit-stake message, the committee-scoped ejection and the rotation of
+`ConformStateToParamUpdate` keep a duplicate-free list duplicate-free). The last clause is what bounds every
+per-committee tally by the total stake; liveness of `EndBlock` needs it (see `never_wedged`). -/
+def Inv (L : Ledger) : Prop := InvSupply L ∧ PercentsOK L ∧ InvStaking L ∧ CommitteesDistinct L
 
 /-- the deferred-action heights under the parameters a governance transaction installs -/
 def Op.HeightsAfter (L : Ledger) : Op → Prop
@@ -55,7 +59,7 @@ def Op.Safe (L : Ledger) (op : Op) : Prop := Canopy.C04.Op.Safe L op ∧ Heights
 /-- **`InvStaking` is preserved by every modelled operation.** -/
 theorem invStaking_preserved {L L' : Ledger} {op : Op} (hinv : Inv L) (hsafe : Op.Safe L op) (h : op.apply L = .ok L') :
     InvStaking L' := by
-  obtain ⟨hi, hp, hs⟩ := hinv
+  obtain ⟨hi, hp, hs, _⟩ := hinv
   obtain ⟨h4, hh, ha⟩ := hsafe
   have hU : (2 : Nat) ^ 64 = U64 := by decide
   cases op with
@@ -73,10 +77,49 @@ theorem invStaking_preserved {L L' : Ledger} {op : Op} (hinv : Inv L) (hsafe : O
     unfold retireCommittee; split <;> exact hs.of_same rfl rfl rfl rfl rfl rfl rfl
   | endBlock => exact endBlock_inv hi hp hs hh.unstaking h
 
+/-- **duplicate-free committee lists are preserved by every modelled operation** -/
+theorem committeesDistinct_preserved {L L' : Ledger} {op : Op} (hinv : Inv L) (hsafe : Op.Safe L op) (h : op.apply L = .ok L') :
+    CommitteesDistinct L' := by
+  obtain ⟨hi, hp, hs, hc⟩ := hinv
+  have hd := dupCommittees_zero_of hs.wf.validators hc
+  refine committeesDistinct_of_zero ?_
+  have le0 : ∀ {X : Ledger}, dupCommittees X ≤ dupCommittees L → dupCommittees X = 0 := fun hle => by omega
+  cases op with
+  | tx sender fee msg => exact le0 (applyTx_dup_le h)
+  | mint => exact le0 (Nat.le_of_eq (dup_same (beginBlockMint_sameStaking h).validators))
+  | slash chain percent addrs => exact le0 (slashValidators_dup_le h)
+  | cert qh rh mem ds pay => exact le0 (handleCertificateResults_dup_le h)
+  | retire chain =>
+    obtain rfl := Except.ok.inj h
+    refine le0 (Nat.le_of_eq (dup_same ?_))
+    unfold retireCommittee; split <;> rfl
+  | endBlock =>
+    obtain ⟨L'', h', _, _, _, d, _⟩ := endBlock_ok_of hi hp hs hsafe.2.1.unstaking hd
+    have h2 : Canopy.Ledger.endBlock L = .ok L' := h
+    rw [h2] at h'
+    obtain rfl := Except.ok.inj h'
+    exact d
+
+/-- the excluded point of `HeightsOK` (known findings C12:unstaking-marker-at-height-zero / paused-marker-at-height-zero;
+Go scenarios `unstake-finish-height-wraps`, `pause-max-height-wraps`): with `UnstakingBlocks = 2^64 − height` an unstake
+is accepted, files the validator under marker height 0 while its record says "not unstaking", `Markers` no longer
+holds, and the same unstake is accepted again; with `MaxPauseBlocks = 2^64 − height` a pause is accepted and the
+following unpause is rejected -/
+theorem heightsOK_excluded_point :
+    let v : Validator := { stake := 5, committees := [1], delegate := false, compound := false, output := 1 }
+    let L : Ledger := { height := 2, params := { unstakingBlocks := 2 ^ 64 - 2, maxPauseBlocks := 2 ^ 64 - 2 }, validators := [(1, v)],
+                        supply := { total := 5, staked := 5, committee := [(1, 5)] } }
+    markersB L = true ∧ talliesB L = true ∧
+    (∃ L', handleUnstake L 1 = .ok L' ∧ KSet.has L'.unstaking (0, 1) = true ∧ (valGet? L' 1).map (·.unstakingHeight) = some 0 ∧
+      markersB L' = false ∧ (handleUnstake L' 1).toOption.isSome = true) ∧
+    (∃ L', handlePause L 1 = .ok L' ∧ KSet.has L'.paused (0, 1) = true ∧ (valGet? L' 1).map (·.maxPausedHeight) = some 0 ∧
+      markersB L' = false ∧ (handleUnpause L' 1).toOption.isSome = false) := by
+  refine ⟨by decide, by decide, ⟨_, rfl, by decide, by decide, by decide, by decide⟩, ⟨_, rfl, by decide, by decide, by decide, by decide⟩⟩
+
 /-- one operation keeps the whole C12 invariant (the two C04 clauses by `Canopy.C04.op_conserves`) -/
 theorem op_preserves {L L' : Ledger} {op : Op} (hinv : Inv L) (hsafe : Op.Safe L op) (h : op.apply L = .ok L') : Inv L' :=
   have c4 := (Canopy.C04.op_conserves ⟨hinv.1, hinv.2.1⟩ hsafe.1 h).1
-  ⟨c4.1, c4.2, invStaking_preserved hinv hsafe h⟩
+  ⟨c4.1, c4.2, invStaking_preserved hinv hsafe h, committeesDistinct_preserved hinv hsafe h⟩
 
 /-- an accepted genesis satisfies `InvStaking` (amounts being `uint64`). The loader's duplicate rejection
 (`ValidateGenesisState`, b164a5d; pinned by `genesis_rejects_duplicates`) is what makes the tallies start exact. -/
@@ -86,7 +129,7 @@ theorem invStaking_genesis {cfg : Config} {params : Params} {accounts : List (Ad
     (h : genesis cfg params accounts pools vals retired = .ok L) : Inv L :=
   ⟨Canopy.C04.inv_genesis ha hp hv h, genesis_percentsOK h,
    genesis_invStaking (fun e he => by have := ha e he; unfold MAXU; omega) (fun e he => by have := hp e he; unfold MAXU; omega)
-    (fun g hg => by have := hv g hg; unfold MAXU; omega) h⟩
+    (fun g hg => by have := hv g hg; unfold MAXU; omega) h, committeesDistinct_of_zero (genesis_dup_zero h)⟩
 
 /-- ledgers reachable from `L₀` by successful, `Safe` operations -/
 inductive Reachable (L₀ : Ledger) : Ledger → Prop
@@ -105,19 +148,21 @@ theorem invStaking_from_genesis {cfg : Config} {params : Params} {accounts : Lis
     {vals : List GenesisValidator} {retired : List Nat} {L₀ L : Ledger}
     (ha : ∀ e ∈ accounts, e.2 < 2 ^ 64) (hp : ∀ e ∈ pools, e.2 < 2 ^ 64) (hv : ∀ g ∈ vals, g.val.stake < 2 ^ 64)
     (hg : genesis cfg params accounts pools vals retired = .ok L₀) (hr : Reachable L₀ L) : InvStaking L :=
-  (inv_reachable (invStaking_genesis ha hp hv hg) hr).2.2
+  (inv_reachable (invStaking_genesis ha hp hv hg) hr).2.2.1
 
 /-- the loader's duplicate rejection as regenerated from the body of `ValidateGenesisState` on this run: which key of
 each record list goes through a `DeDuplicator`, and the error returned on a repeat — the model returns the same ones -/
 theorem genesis_dedup_pinned : Canopy.Gen.LedgerFacts.genesisDedup = [
     ("Validators", "lib.BytesToString(val.Address)", Err.invalidAddress.code),
+    ("Validators[i].Committees", "committee", Err.invalidNumCommittees.code),
     ("Accounts", "lib.BytesToString(account.Address)", Err.invalidAddress.code),
     ("Pools", "pool.Id", Err.invalidChainId.code)] := by decide
 
-/-- an accepted genesis lists no validator address, account address or pool id twice -/
+/-- an accepted genesis lists no validator address, account address or pool id twice, and no validator lists a
+committee twice -/
 theorem genesis_accepts_only_distinct {cfg : Config} {params : Params} {accounts : List (Addr × Nat)} {pools : List (Nat × Nat)}
     {vals : List GenesisValidator} {retired : List Nat} {L : Ledger} (h : genesis cfg params accounts pools vals retired = .ok L) :
-    (vals.map (·.addr)).Nodup ∧ (accounts.map (·.1)).Nodup ∧ (pools.map (·.1)).Nodup := by
+    (vals.map (·.addr)).Nodup ∧ (accounts.map (·.1)).Nodup ∧ (pools.map (·.1)).Nodup ∧ ∀ g ∈ vals, g.val.committees.Nodup := by
   unfold genesis at h
   split at h
   · exact absurd h (by intro h; cases h)
@@ -139,13 +184,15 @@ theorem genesis_accepts_only_distinct {cfg : Config} {params : Params} {accounts
             · exact absurd hval (by intro h; cases h)
             · next hdp =>
               exact ⟨hasDup_false_nodup _ (by simpa using hdv), hasDup_false_nodup _ (by simpa using hda),
-                hasDup_false_nodup _ (by simpa using hdp)⟩
+                hasDup_false_nodup _ (by simpa using hdp), fun g hg => hasDup_false_nodup _ (hdc g hg)⟩
 
 /-- the error identity an operation was rejected with -/
 def _root_.Except.rejectedWith (r : M Ledger) : Option String := match r with | .error e => some e.code | .ok _ => none
 
-/-- the loader rejects a genesis listing a validator, an account or a pool twice, with the pinned errors -/
+/-- the loader rejects a genesis listing a validator, an account or a pool twice, or a validator listing a committee
+twice, with the pinned errors -/
 theorem genesis_rejects_duplicates :
+    (genesis {} {} [] [] [{ addr := 3, val := { stake := 5, committees := [1, 1], delegate := false, compound := false, output := 3 } }] []).rejectedWith = some Canopy.Gen.LedgerFacts.errInvalidNumCommittees ∧
     (genesis {} {} [(1, 5), (1, 7)] [] [] []).rejectedWith = some Canopy.Gen.LedgerFacts.errInvalidAddress ∧
     (genesis {} {} [] [(9, 5), (9, 7)] [] []).rejectedWith = some Canopy.Gen.LedgerFacts.errInvalidChainId ∧
     (genesis {} {} [] [] [{ addr := 3, val := { stake := 5, committees := [1], delegate := false, compound := false, output := 3 } }, { addr := 3, val := { stake := 6, committees := [1], delegate := false, compound := false, output := 3 } }] []).rejectedWith = some Canopy.Gen.LedgerFacts.errInvalidAddress := by
@@ -157,11 +204,12 @@ An empty block (begin-block mint, no transactions, `EndBlock` with reward distri
 force-unstake and finished unstaking) applies on EVERY ledger satisfying the invariant — with or without reward
 percents waiting to be distributed — and the invariant holds again at the next height.
 
+The clause `CommitteesDistinct` of the invariant is what makes this true: it bounds every per-committee tally by the
+total stake, so that the GUARDED additions of `SetCommittees` / `SetDelegations` during auto-compounding cannot fail
+(with a doubly listed committee and a stake near 2^63 they would, and `EndBlock` with them; before 0262f16 a genesis
+could contain such a validator).
+
 Hypotheses besides the invariant:
-* `CommitteesDistinct`: no validator lists a committee twice. `checkCommittees` enforces it for stake / edit-stake
-  messages; `ValidateGenesisState` does not look at the list. It is what bounds every per-committee tally by the total
-  stake, so that the GUARDED additions of `SetCommittees` / `SetDelegations` during auto-compounding cannot fail
-  (with a doubly listed committee and a stake near 2^63 they would, and `EndBlock` with them).
 * the halvening period is configured (`BlocksPerHalvening ≠ 0`, else `GetBlockMintStats` divides by zero);
 * the scheduled mint does not overflow the recorded total (F5, see C04);
 * the finish height of a forced unstake is not 0 mod 2^64 (see `HeightsOK`). -/
@@ -171,37 +219,36 @@ theorem live_of_invariants {L : Ledger} (hi : InvSupply L) (hs : InvStaking L) :
    fun h a hb => (hs.markers.unstaking h a).1 hb⟩
 
 /-- **`EndBlock` succeeds** and keeps the invariant -/
-theorem endBlock_succeeds {L : Ledger} (hinv : Inv L) (hc : CommitteesDistinct L)
-    (hh : (L.height + L.params.unstakingBlocks) % 2 ^ 64 ≠ 0) :
-    ∃ L', endBlock L = .ok L' ∧ L'.height = L.height + 1 ∧ Inv L' ∧ CommitteesDistinct L' := by
+theorem endBlock_succeeds {L : Ledger} (hinv : Inv L) (hh : (L.height + L.params.unstakingBlocks) % 2 ^ 64 ≠ 0) :
+    ∃ L', endBlock L = .ok L' ∧ L'.height = L.height + 1 ∧ Inv L' := by
   have hU : (2 : Nat) ^ 64 = U64 := by decide
   rw [hU] at hh
-  obtain ⟨hi, hp, hs⟩ := hinv
+  obtain ⟨hi, hp, hs, hc⟩ := hinv
   obtain ⟨L', h, i, p, s, d, e, _⟩ := endBlock_ok_of hi hp hs hh (dupCommittees_zero_of hs.wf.validators hc)
-  exact ⟨L', h, e, ⟨i, p, s⟩, committeesDistinct_of_zero d⟩
+  exact ⟨L', h, e, i, p, s, committeesDistinct_of_zero d⟩
 
 /-- **never wedged, next block** -/
-theorem never_wedged {L : Ledger} (hinv : Inv L) (hc : CommitteesDistinct L)
+theorem never_wedged {L : Ledger} (hinv : Inv L)
     (hb : L.cfg.blocksPerHalvening ≠ 0) (hx : L.supply.total + scheduledMint L < 2 ^ 64)
     (hh : (L.height + L.params.unstakingBlocks) % 2 ^ 64 ≠ 0) :
-    ∃ L', emptyBlock L = .ok L' ∧ L'.height = L.height + 1 ∧ Inv L' ∧ CommitteesDistinct L' := by
+    ∃ L', emptyBlock L = .ok L' ∧ L'.height = L.height + 1 ∧ Inv L' := by
   have hU : (2 : Nat) ^ 64 = U64 := by decide
   rw [hU] at hx hh
-  obtain ⟨hi, hp, hs⟩ := hinv
+  obtain ⟨hi, hp, hs, hc⟩ := hinv
   obtain ⟨L', h, i, p, s, d, e, _⟩ := emptyBlock_ok hi hp hs (dupCommittees_zero_of hs.wf.validators hc) hb hx hh
-  exact ⟨L', h, e, ⟨i, p, s⟩, committeesDistinct_of_zero d⟩
+  exact ⟨L', h, e, i, p, s, committeesDistinct_of_zero d⟩
 
 /-- **never wedged, every future height**: `n` consecutive empty blocks apply, for every `n` — in particular up to and
 beyond the largest pending unstaking / max-pause marker. The arithmetic hypotheses bound the `n` scheduled mints and
 the heights reached. -/
-theorem never_wedged_future : ∀ (n : Nat) (L : Ledger), Inv L → CommitteesDistinct L → L.cfg.blocksPerHalvening ≠ 0 →
+theorem never_wedged_future : ∀ (n : Nat) (L : Ledger), Inv L → L.cfg.blocksPerHalvening ≠ 0 →
     L.supply.total + n * L.cfg.initialTokensPerBlock < 2 ^ 64 → 0 < L.height →
     L.height + n + L.params.unstakingBlocks < 2 ^ 64 → emptyBlocksOk n L = true
-  | 0, _, _, _, _, _, _, _ => rfl
-  | n + 1, L, hinv, hc, hb, hx, h0, hh => by
+  | 0, _, _, _, _, _, _ => rfl
+  | n + 1, L, hinv, hb, hx, h0, hh => by
     have hU : (2 : Nat) ^ 64 = U64 := by decide
     rw [hU] at hx hh
-    obtain ⟨hi, hp, hs⟩ := hinv
+    obtain ⟨hi, hp, hs, hc⟩ := hinv
     have hm : scheduledMint L ≤ L.cfg.initialTokensPerBlock := Nat.div_le_self _ _
     have hsm : (n + 1) * L.cfg.initialTokensPerBlock = n * L.cfg.initialTokensPerBlock + L.cfg.initialTokensPerBlock := Nat.succ_mul _ _
     have hx1 : L.supply.total + scheduledMint L < U64 := by omega
@@ -209,9 +256,44 @@ theorem never_wedged_future : ∀ (n : Nat) (L : Ledger), Inv L → CommitteesDi
     obtain ⟨L', h, i, p, s, d, e1, e2, e3, t⟩ := emptyBlock_ok hi hp hs (dupCommittees_zero_of hs.wf.validators hc) hb hx1 hh1
     unfold emptyBlocksOk
     rw [h]
-    refine never_wedged_future n L' ⟨i, p, s⟩ (committeesDistinct_of_zero d) (by rw [e3]; exact hb) ?_ (by omega) ?_
+    refine never_wedged_future n L' ⟨i, p, s, committeesDistinct_of_zero d⟩ (by rw [e3]; exact hb) ?_ (by omega) ?_
     · rw [hU, e3]; omega
     · rw [hU, e1, e2]; omega
+
+/-- **never wedged, every reachable ledger**: after any sequence of successful modelled operations from an accepted
+genesis, the next empty block applies and leaves the invariant in place -/
+theorem never_wedged_from_genesis {cfg : Config} {params : Params} {accounts : List (Addr × Nat)} {pools : List (Nat × Nat)}
+    {vals : List GenesisValidator} {retired : List Nat} {L₀ L : Ledger}
+    (ha : ∀ e ∈ accounts, e.2 < 2 ^ 64) (hp : ∀ e ∈ pools, e.2 < 2 ^ 64) (hv : ∀ g ∈ vals, g.val.stake < 2 ^ 64)
+    (hg : genesis cfg params accounts pools vals retired = .ok L₀) (hr : Reachable L₀ L)
+    (hb : L.cfg.blocksPerHalvening ≠ 0) (hx : L.supply.total + scheduledMint L < 2 ^ 64)
+    (hh : (L.height + L.params.unstakingBlocks) % 2 ^ 64 ≠ 0) :
+    ∃ L', emptyBlock L = .ok L' ∧ L'.height = L.height + 1 ∧ Inv L' :=
+  never_wedged (inv_reachable (invStaking_genesis ha hp hv hg) hr) hb hx hh
+
+/-- a ledger with reward percents waiting: validator 1 (auto-compounding) is paid 60 %, account 9 is paid 30 % of the
+1000 tokens in the reward pool of chain 1 -/
+def pendingLedger (committees : List Nat) (stake : Nat) : Ledger :=
+  { height := 2, cfg := { blocksPerHalvening := 10, initialTokensPerBlock := 0 }
+    validators := [(1, { stake := stake, committees := committees, delegate := false, compound := true, output := 1 })]
+    pools := [(1, 1000)]
+    committeesData := [{ chainId := 1, samples := 1, percents := [(1, 60), (9, 30)] }]
+    supply := { total := stake + 1000, staked := stake, committee := [(1, stake * committees.count 1)] } }
+
+/-- non-vacuity of `never_wedged` with pending rewards: the distribution runs (600 compounded, 240 = 30 % less the
+20 % early-withdrawal penalty paid out, the rest burnt) and three more blocks apply -/
+example : talliesB (pendingLedger [1] 5000) = true ∧ emptyBlocksOk 4 (pendingLedger [1] 5000) = true ∧
+    ((emptyBlock (pendingLedger [1] 5000)).toOption.map fun L => (L.validators.map (·.2.stake), L.accounts, L.supply.committee))
+      = some ([5600], [(9, 240)], [(1, 5600)]) := by decide
+
+/-- why `CommitteesDistinct` is in the invariant: the same ledger with committee 1 listed twice and a stake of
+2^63 − 1 satisfies the supply identity and the (per-entry) tallies, and its `EndBlock` FAILS — the guarded addition
+of `SetCommittees` overflows while re-indexing the compounded stake. Such a validator could only come from a genesis
+file; the loader rejects it since 0262f16 (`genesis_rejects_duplicates`). -/
+theorem endBlock_fails_with_duplicate_committee :
+    InvSupply (pendingLedger [1, 1] (2 ^ 63 - 1)) ∧ talliesB (pendingLedger [1, 1] (2 ^ 63 - 1)) = true ∧
+    (endBlock (pendingLedger [1, 1] (2 ^ 63 - 1))).rejectedWith = some Canopy.Gen.LedgerFacts.errInvalidAmount ∧
+    (endBlock (pendingLedger [1] (2 ^ 63 - 1))).rejectedWith = none := by decide
 
 /-- non-vacuity: the executable versions of the invariant hold on the scenario ledger and an unstake succeeds on it -/
 example : talliesB f3Ledger = true ∧ markersB f3Ledger = true ∧ (handleUnstake f3Ledger 2).toOption.isSome = true := by decide
